@@ -695,6 +695,10 @@ def decode_from_hdf5(value: Any) -> Any:
                 return value
         return value
 
+    if isinstance(value, np.generic):
+        # h5py returns numpy scalars for scalar datasets
+        return value.item()
+
     if isinstance(value, list):
         return [decode_from_hdf5(v) for v in value]
     if isinstance(value, tuple):
